@@ -402,6 +402,11 @@ func (r *CPUSuppress) adjustByCPUSet(cpusetQuantity *resource.Quantity, nodeCPUI
 		cpus = int32(len(oldCPUSet)) + beMaxIncreaseCpuNum
 	}
 	var beCPUSet []int32
+	if len(lsrCpus)+len(lsCpus) <= 0 {
+		// every cpu is owned by LSE pods, reserved by the node or exclusive to the system qos
+		klog.Warningf("suppressBECPU skipped, no cpu is available for best-effort pods, want cpus %v", cpus)
+		return
+	}
 	lsrCpuNums := int32(int(cpus) * len(lsrCpus) / (len(lsrCpus) + len(lsCpus)))
 
 	if lsrCpuNums > 0 {
